@@ -116,7 +116,22 @@ def run(ctx):
             # few subjects, few access lists, many rules: every access list is written several times in the same spelling and most
             # rules have a partner to merge with next to bystanders that must stay as they are (state shared between rule objects,
             # e.g. a common backing array of equal access lists, shows as a bystander that changes)
-            kind = rng.choice(["file", "file", "file", "signal", "ptrace", "unix", "dbus", "mqueue"])
+            kind = rng.choice(["file", "file", "file", "signal", "ptrace", "unix", "dbus", "mqueue", "mounts", "mounts"])
+            if kind == "mounts":
+                # umount / remount rules over two or three mount points and a few option lists (same fstype): an option list
+                # must stay with its own mount point
+                mk = rng.choice(["umount", "remount"])
+                q = rulegen.qual(rng) if rng.random() < 0.3 else {"Audit": False, "AccessType": ""}
+                points = rng.sample(["/mnt/a/", "/mnt/b/", "/boot/", "/run/media/*/", "/"], 3)
+                opts = rng.sample([[], ["ro"], ["rw", "nosuid"], ["bind"], ["ro", "bind", "nosuid"], ["noexec"]], 3)
+                fst = rng.choice(["", "", "ext4"])
+                lst = []
+                for _k in range(rng.randint(3, 6)):
+                    r = {"kind": mk, "Comment": "", "FsType": fst, "Options": list(rng.choice(opts)), "MountPoint": rng.choice(points)}
+                    r.update(q)
+                    lst.append(r)
+                lists.append((stratum, lst))
+                continue
             if kind == "file":
                 q = rulegen.qual(rng) if rng.random() < 0.3 else {"Audit": False, "AccessType": ""}
                 paths = rng.sample(["/var/lib/app/lock", "/var/lib/app/db", "@{run}/app.pid", "/etc/app.conf", "@{HOME}/.cache/app/**"], 3)
